@@ -13,9 +13,20 @@
    model still follows the tree and the report consists of the concrete failing files found by the monitors
    (which do not depend on the probe) rather than of a flood of correspondence lines.
 3. property monitors on the implementation alone: bytes == reference decompression (Python) of the file;
-   offset() <= file size at every read; every truncation inside a stream and every single-byte corruption
-   the reference rejects must raise; output of the library's own compressors is reference-readable and is
-   read back identically; the real ReadThreadManager + queue gives what the in-thread loop gives.
+   offset() <= file size at every read; every truncation inside a stream must raise; output of the
+   library's own compressors is reference-readable and is read back identically; the real
+   ReadThreadManager + queue gives what the in-thread loop gives.
+4. corruption sweep BY STRUCTURE (section G): {gzip, bzip2} x {fd decompressor, buffer decompressor, whole
+   Reader from a file name / from a buffer} x files of 1..4 members (tiny, empty-payload, payload = k*ibs,
+   member boundary at / next to the libbz2 5000-byte read-ahead edge and zlib's 8192-byte input buffer edge):
+   EVERY byte of every member header (all members, not only the first) and trailer, the bzip2 block header,
+   a sample (quick) / all (thorough) body positions, several replacement values.  Monitor = the property:
+   the outcome is an error, or the delivered bytes are identical to the ORIGINAL payload (harmless damage in
+   a don't-care field) — never "the reference accepts it too" (Python's bz2/gzip ignore trailing garbage).
+   The same cases go through the model with an oracle line computed by scanning the damaged file with the
+   reference libraries (per stream: compressed size, bytes decoded before the library reports, and whether
+   it reports end / out-of-input / data error / no header), so the model's error branches — a bad header of
+   a LATER stream included — are tied to the code.
 """
 import bz2
 import gzip
@@ -36,6 +47,8 @@ WHAT = {
     'bzip2-fd-multistream-at-readahead-boundary': '[regression of fix d74b2ae] Bzip2Decompressor: a stream that ends exactly at a read-ahead boundary has num_unused == 0 -> m_stream_end, the following streams are dropped (bzip2_compression.hpp:304-317; F11c)',
     'bzip2-fd-empty-chunk-midfile': '[regression of fix d74b2ae] Bzip2Decompressor::read returns an empty string in the middle of the file (stream with empty payload / payload a multiple of input_buffer_size): the read thread takes it for the end of the data (bzip2_compression.hpp:322; read_thread.hpp:76; F11d)',
     'gzip-buffer-truncation-accepted': '[regression of fix 20beb73] GzipBufferDecompressor: a buffer that ends inside a gzip member is accepted when an inflate() call consumes input without producing output (cut inside the header / first block, or right after an exact 10240-byte step): Z_OK with an empty chunk ends the reading (gzip_compression.hpp:309-327; F11e)',
+    'corruption-accepted:gzip-fd:magic-of-first-member': '[regression of the gzdirect() check] GzipDecompressor (fd): a file whose first two bytes are not the gzip magic (damaged ID1/ID2 of the first member, a one-byte file) is copied verbatim by gzread ("transparent" reading): the raw compressed bytes are delivered as if they were the payload, no error (gzip_compression.hpp GzipDecompressor::read)',
+    'corruption-accepted:gzip-fd:magic-of-later-member': 'GzipDecompressor (fd, also Reader on a file name): damaged ID1/ID2 (1f 8b) of a gzip member other than the first: zlib gzread takes the rest of the file for trailing garbage (gz_look) and reports nothing; the members from the damaged one on are dropped silently, close() succeeds',
     'bzip2-buffer-truncation-accepted': '[regression of fix 0ac7ff4] Bzip2BufferDecompressor never detects input that ends inside a stream: BZ2_bzDecompress returns BZ_OK without progress, the empty chunk ends the reading (bzip2_compression.hpp:393-404)',
 }
 
@@ -177,6 +190,163 @@ def ends_inside_stream(kind, data):
         return False
 
 
+Z_OUT = 16384      # gzread's internal output buffer (2 * default gzbuffer size 8192)
+
+
+def lib_decode(kind, rest, room):
+    """What the decompression library (inflate with header auto-detection as in GzipBufferDecompressor /
+    BZ2_bzDecompress) makes of the bytes `rest` taken as ONE stream when it is driven the way the wrapper
+    drives it — one call per `room` bytes of output space:
+       ('end', n, csize)  complete valid stream of csize bytes with n payload bytes
+       ('trunc', n)       all input consumed, no error, no end of stream
+       ('bad', n)         data error; n = bytes handed out by the calls before the one that reports it (each of
+                          them fills its `room` bytes; whether the call that produces the last decodable byte
+                          already notices the damage depends on the decoder state at that byte, so the calls are
+                          made with the real output size)"""
+    def mk():
+        return zlib.decompressobj(47) if kind == 'gzip' else bz2.BZ2Decompressor()
+    d = mk()
+    try:
+        out = d.decompress(rest)
+        if d.eof:
+            return ('end', len(out), len(rest) - len(d.unused_data))
+        return ('trunc', len(out))
+    except (zlib.error, OSError, ValueError):
+        pass
+    d = mk()
+    n = 0
+    try:
+        if kind == 'gzip':
+            buf = rest
+            while True:
+                o = d.decompress(buf, room)
+                buf = d.unconsumed_tail
+                if len(o) < room:
+                    break           # (not reached: the damage is reported by an exception)
+                n += len(o)
+        else:
+            o = d.decompress(rest, room)
+            while len(o) == room:
+                n += len(o)
+                o = d.decompress(b'', room)
+    except (zlib.error, OSError, ValueError):
+        pass
+    return ('bad', n)
+
+
+def bz_fd_calls_before_error(data, pos, room):
+    """BZ2_bzRead(len = room) on the stream that starts at file offset `pos`, with the input arriving the way
+    bzlib.c feeds it: whenever avail_in == 0, the next block of the FILE up to the next multiple of 5000.
+    Returns the bytes handed out by the calls before the failing one.  (With all input at hand libbz2 notices
+    damage in the end-of-stream marker / combined CRC in the call that produces the last payload byte; when
+    those bytes are still in the FILE it returns BZ_OK first.)"""
+    d = bz2.BZ2Decompressor()
+    fp = pos
+    n = 0
+    try:
+        while True:
+            got = 0
+            while True:
+                chunk = b''
+                if d.needs_input:
+                    if fp >= len(data):
+                        return n
+                    end = min(len(data), (fp // RA + 1) * RA)
+                    chunk = data[fp:end]
+                    fp = end
+                got += len(d.decompress(chunk, room - got))
+                if d.eof:
+                    return n
+                if got == room:
+                    break
+            n += room
+    except (OSError, ValueError):
+        return n
+
+
+def bz_header_bad(rest):
+    """libbz2 compares the first four bytes with 'B','Z','h','1'..'9' one by one (BZ_DATA_ERROR_MAGIC)"""
+    for i, b in enumerate(rest[:4]):
+        if i < 3 and b != b'BZh'[i]:
+            return True
+        if i == 3 and not (0x31 <= b <= 0x39):
+            return True
+    return False
+
+
+def scan_layout(kind, data, mode, ibs=64):
+    """oracle fields for the model for ANY file (damaged ones included): the file as the library sees it,
+    stream by stream, up to the first stream that is cut or damaged"""
+    out = []
+    pos = 0
+    # output space per library call: gzread decodes into its 16 KiB buffer (all of a failing fill is lost),
+    # BZ2_bzRead gets the wrapper's input_buffer_size, the buffer decompressors 10240 bytes
+    room = OSTEP if mode == 'buf' else (Z_OUT if kind == 'gzip' else ibs)
+    while pos < len(data):
+        rest = data[pos:]
+        first = pos == 0
+        if kind == 'gzip' and mode == 'fd' and rest[:2] != b'\x1f\x8b':
+            # gzlib gz_look: no magic -> the whole file is copied verbatim (first) / trailing garbage, ignored (later)
+            out.append('%d:%d:m' % (len(rest), len(rest) if first else 0))
+            break
+        r = lib_decode(kind, rest, room)
+        if r[0] == 'end':
+            out.append('%d:%d' % (r[2], r[1]))
+            pos += r[2]
+            continue
+        if r[0] == 'trunc':
+            o = trunc_oracle(kind, rest)
+            if o is None:
+                return None
+            out.append('%d:%d:%s' % (len(rest), o[0], 'ts' if o[1] else 't'))
+            break
+        n = r[1]
+        if kind == 'bzip2' and mode == 'fd':
+            n = bz_fd_calls_before_error(data, pos, room)
+        magic = n == 0 and (bz_header_bad(rest) if kind == 'bzip2' else rest[:2] != b'\x1f\x8b')
+        out.append('%d:%d:%s' % (len(rest), n, 'm' if magic else 'd'))
+        break
+    return out
+
+
+def repl_values(b, rnd, full):
+    """replacement values for one byte: flip the lowest / the highest / a random bit, flip case, 0x00, 0xff, digit -> '0'"""
+    vals = [b ^ 1, b ^ 0x20, 0x00, 0xff, b ^ (1 << rnd.randrange(8))]
+    if full:
+        vals += [b ^ 0x80]
+    if 0x31 <= b <= 0x39:
+        vals.append(0x30)
+    out = []
+    for v in vals:
+        if v != b and v not in out:
+            out.append(v)
+    return out
+
+
+def member_regions(kind, members):
+    """[(file position, member index, region, offset in member)] for every byte of the file;
+    region: hdr (gzip: the 10 header bytes; bzip2: 'BZh9') | blk (bzip2 block magic + block CRC) | body | trl
+    (gzip: CRC32 + ISIZE; bzip2: end-of-stream magic + combined CRC, bit-aligned: the last 10 bytes)"""
+    out = []
+    pos = 0
+    for mi, m in enumerate(members):
+        n = len(m)
+        hl = 10 if kind == 'gzip' else 4
+        tl = 8 if kind == 'gzip' else 10
+        for off in range(n):
+            if off < hl:
+                reg = 'hdr'
+            elif off >= n - tl:
+                reg = 'trl'
+            elif kind == 'bzip2' and off < 14:
+                reg = 'blk'
+            else:
+                reg = 'body'
+            out.append((pos + off, mi, reg, off))
+        pos += n
+    return out
+
+
 class Case:
     """one file + how it is read"""
     __slots__ = ('kind', 'mode', 'ibs', 'members', 'payloads', 'cut', 'path', 'data', 'streams', 'tag', 'exact_offs', 'zlib_dilemma')
@@ -207,7 +377,13 @@ def layout(c):
             if o is None:
                 return None
             if kind == 'gzip' and len(part) == 1:
-                c.zlib_dilemma = True     # a lone 0x1f byte: zlib documents that it cannot tell (gz_look)
+                # a lone first byte of a member: zlib documents that it cannot tell (gz_look needs two bytes to see
+                # the magic): gzread copies it (start of the file) / ignores it as trailing garbage (after a member)
+                c.zlib_dilemma = True
+                if c.mode == 'fd':
+                    out.append('1:%d:m' % (1 if pos == 0 else 0))
+                    pos += len(m)
+                    continue
             out.append('%d:%d:%s' % (len(part), o[0], 'ts' if o[1] else 't'))
         pos += len(m)
     return out
@@ -226,10 +402,14 @@ def run(ctx):
         'libbz2: BZ2_bzRead as in bzlib.c 1.0.8 (5000-byte fread blocks, myfeof probe, BZ_UNEXPECTED_EOF); streams in the correspondence are single-block for the '
         'offset comparison (payload <= 800 kB), chunk lengths are compared for all sizes',
         'glibc stdio: feof() is true after an fread that came back short or an fgetc at the end of the file',
-        'a file that consists of a lone first byte of a gzip member (0x1f) after zero or more complete members is outside the domain: zlib documents that it '
-        'cannot tell a truncated gzip file from a one-byte plain file (gzread transparent mode); corrupted gzip MAGIC bytes likewise make gzread copy the file '
-        'verbatim / ignore the rest as trailing garbage (counted in the histogram as zlib-transparent, not as violations)',
-        'files end after the last stream (no trailing garbage)']
+        'gzread (gzlib gz_look): bytes that do not start with 1f 8b are copied verbatim at the start of the file (gzdirect(): refused by the wrapper since '
+        '/repo d0f1d5d) and ignored as trailing garbage after at least one member (known finding corruption-accepted:gzip-fd:magic-of-later-member); '
+        'a single byte after complete members is the same case for zlib (it needs two bytes to see the magic): counted as excluded:zlib-lone-byte-after-members; '
+        'a damaged member makes the gzread call that needs the 16 KiB internal output buffer in which the damage is decoded return -1',
+        'damaged streams: the reference libraries (Python zlib with header auto-detection / bz2) driven with the output size the wrapper uses (input_buffer_size / '
+        '10240 / gzread\'s 16 KiB; BZ2_bzRead: input fed in its 5000-byte FILE blocks) give the number of bytes a library hands out before the call that reports the data error; offsets reported while reading a '
+        'damaged file are only checked against the file size, not against the model',
+        'bytes after the last stream that are not a complete valid stream (trailing garbage) are a damaged / cut last stream']
     ctx.trusted.append('Python 3 gzip/bz2/zlib modules as reference compressor/decompressor and as the source of the per-stream sizes given to the model')
 
     ctx.proof_stage(exes=['model_c09'])
@@ -306,7 +486,8 @@ def _run(ctx, hbin, scratch):
     # ------------------------------------------------------------------ which repairs does the tree have?
     probes = [mk('gzip', 'buf', 64, [b'abcde', b'fghijkl']), mk('bzip2', 'buf', 64, [b'abcde', b'fghijkl']),
               mk('bzip2', 'fd', 64, [b'abcde', b'fghijkl']), mk('bzip2', 'fd', 64, [b'', b'fghijkl']),
-              mk('gzip', 'buf', 64, [b'abcde' * 9], cut=5), mk('bzip2', 'buf', 64, [b'abcde' * 9], cut=30)]
+              mk('gzip', 'buf', 64, [b'abcde' * 9], cut=5), mk('bzip2', 'buf', 64, [b'abcde' * 9], cut=30),
+              mk('gzip', 'fd', 64, [b'abcde' * 9], data=b'\x00' + compress('gzip', b'abcde' * 9)[1:])]
     for c in probes:
         c.path = g.write(c.data)
     rc, pout, se = ctx.run_lines([hbin[64]], ''.join('rd %s %s 64 %s\n' % (c.kind, c.mode, c.path) for c in probes))
@@ -317,10 +498,11 @@ def _run(ctx, hbin, scratch):
     fx_buf_multi = pr[0].get('total') == '12' and pr[1].get('total') == '12'
     fx_bz = pr[2].get('total') == '12' and pr[3].get('total') == '7'
     fx_buf_trunc = pr[4]['status'].startswith('err') and pr[5]['status'].startswith('err')
-    fx = '%d%d%d' % (fx_buf_multi, fx_bz, fx_buf_trunc)
-    ctx.extra['repairs_detected_in_tree'] = {'bufMulti': fx_buf_multi, 'bzUnused': fx_bz, 'bufTrunc': fx_buf_trunc}
+    fx_gzdirect = pr[6]['status'].startswith('err')
+    fx = '%d%d%d%d' % (fx_buf_multi, fx_bz, fx_buf_trunc, fx_gzdirect)
+    ctx.extra['repairs_detected_in_tree'] = {'bufMulti': fx_buf_multi, 'bzUnused': fx_bz, 'bufTrunc': fx_buf_trunc, 'gzDirect': fx_gzdirect}
     ctx.count('tree-fixes:' + fx)
-    if fx != '111':
+    if fx != '1111':
         ctx.count('regression-probe:repair-missing')
 
     cases = []
@@ -354,6 +536,7 @@ def _run(ctx, hbin, scratch):
     # ------------------------------------------------------------------ B. bzip2: stream ends around the read-ahead boundary
     tail_small = g.payload(10)
     tail_big = g.payload(6000)
+    bz_aligned = {}
     ends = list(range(4988, 5013)) + [9999, 10000, 10001]
     if quick:
         keep = {4989, 4990, 4999, 5000, 5001, 5009, 5010, 5011, 10000}
@@ -364,6 +547,7 @@ def _run(ctx, hbin, scratch):
             if p1 is None:
                 ctx.count('bz-sized-miss')
                 continue
+            bz_aligned[(e, mult)] = p1
             add('bzip2', [p1], tag='align-single', modes=('fd',))
             add('bzip2', [p1, tail_small], tag='align-short-tail', modes=('fd',))
             add('bzip2', [p1, tail_big], tag='align-long-tail', modes=('fd',))
@@ -411,9 +595,10 @@ def _run(ctx, hbin, scratch):
 
     # ------------------------------------------------------------------ E. truncations: every length of small files
     tcases = []
-    tfiles = [[pl[0]], [pl[5]], [pl[100]], [pl[64], pl[10]], [g.payload(300, compressible=True)]]
+    tfiles = [[pl[0]], [pl[5]], [pl[100]], [pl[64], pl[10]], [g.payload(300, compressible=True)],
+              [pl[5], pl[0], pl[5]], [pl[1], pl[0], pl[10], pl[5]]]
     if not quick:
-        tfiles += [[pl[0], pl[5]], [pl[128], pl[0], pl[65]]]
+        tfiles += [[pl[0], pl[5]], [pl[128], pl[0], pl[65]], [pl[0], pl[0]], [pl[64], pl[64], pl[1], pl[0]]]
     for kind in ('gzip', 'bzip2'):
         for ps in tfiles:
             full = b''.join(compress(kind, p) for p in ps)
@@ -528,7 +713,13 @@ def _run(ctx, hbin, scratch):
         want_total, want_crc = (len(ref), '%08x' % zlib.crc32(ref)) if ref_status == 'ok' else (None, None)
         truncated_stream = any(s.endswith(':t') or s.endswith(':ts') for s in c.streams)
         if c.zlib_dilemma and c.mode == 'fd':
-            ctx.count('excluded:zlib-lone-magic-byte')
+            if len(c.data) > 1:
+                # one byte after complete members: zlib's documented dilemma (same rule as trailing garbage)
+                ctx.count('excluded:zlib-lone-byte-after-members')
+                continue
+            if r['status'] == 'ok':
+                viol('corruption-accepted:gzip-fd:magic-of-first-member', c, op, line,
+                     ' (a one-byte file: gzread copies it verbatim, gzdirect() is not checked)')
             continue
         if truncated_stream:
             # the file ends inside a stream: must be an error
@@ -569,7 +760,7 @@ def _run(ctx, hbin, scratch):
         return '%s | offs=%s fsize=%s' % (head, rle(offs), r.get('fsize'))
 
     if all(m is not None for m in model):
-        idx = [i for i, c in enumerate(cases) if not (c.zlib_dilemma and c.mode == 'fd')]
+        idx = list(range(len(cases)))
         a = [canon(impl[i], cases[i]) for i in idx]
         b = [canon(model[i], cases[i]) for i in idx]
         dis = ctx.diff_streams('c09-model-vs-impl', [ops[i] for i in idx], a, b)
@@ -604,69 +795,213 @@ def _run(ctx, hbin, scratch):
                           {'kind': 'counterexample', 'ops': [ops[i], o], 'results': [impl[i], l]})
             break
 
-    # ------------------------------------------------------------------ G. single-byte corruptions of small files (implementation vs reference)
-    cops = []
-    cmeta = []
-    cfiles = [[pl[100]], [pl[64], pl[10]], [b'']]
-    if not quick:
-        cfiles += [[g.payload(300, compressible=True)], [pl[5], pl[0], pl[5]]]
+    # ------------------------------------------------------------------ G. corruption sweep by structure
+    def opl(first, n):
+        return ''.join('n%d v1 dV c0 t i0 u T x1.0 y2.0\n' % (first + i) for i in range(n)).encode()
+
+    def idcrc(parts):
+        ids = []
+        for p_ in parts:
+            for ln in p_.split(b'\n'):
+                if ln:
+                    ids.append(ln.split(b' ')[0].decode() + ';')
+        return len(ids), '%08x' % zlib.crc32(''.join(ids).encode())
+
+    def gz_sized(target):
+        """an incompressible payload whose gzip member is exactly `target` bytes long"""
+        n = target - 23
+        for _ in range(40):
+            p_ = g.payload(max(n, 0))
+            d_ = len(compress('gzip', p_)) - target
+            if d_ == 0:
+                return p_
+            n -= d_
+        return None
+
+    # (codec, parts, is OPL, which regions get ALL their positions, body positions sampled per member)
+    sweep_files = []
+    body_n = 6 if quick else None        # None = every body byte
     for kind in ('gzip', 'bzip2'):
-        for ps in cfiles:
-            members = [compress(kind, p) for p in ps]
-            full = b''.join(members)
-            starts = set()
-            s = 0
-            for m in members:
-                starts.add(s)
-                starts.add(s + 1)
-                s += len(m)
-            for pos in range(len(full)):
-                masks = [1 << (pos % 8), 0xff] if quick else [1, 2, 4, 8, 16, 32, 64, 128, 0xff]
-                for mask in masks:
-                    data = full[:pos] + bytes([full[pos] ^ mask]) + full[pos + 1:]
-                    path = g.write(data)
+        sweep_files += [(kind, [opl(1, 3)], True, body_n), (kind, [opl(1, 3), opl(10, 2)], True, body_n),
+                        (kind, [opl(1, 2), b'', opl(5, 2)], True, body_n), (kind, [opl(1, 1), b'', opl(5, 2), opl(9, 1)], True, body_n),
+                        (kind, [b'', opl(1, 2)], True, body_n),
+                        (kind, [pl[64], pl[10]], False, body_n), (kind, [pl[128], b'', pl[65]], False, body_n), (kind, [b'', b''], False, body_n)]
+        if not quick:
+            sweep_files += [(kind, [opl(1, 40), opl(100, 1), opl(200, 3)], True, None), (kind, [pl[1], pl[0], pl[64], pl[1]], False, None)]
+    # member boundary at / next to the edge of the library's read-ahead: libbz2 5000 bytes, zlib 8192 bytes
+    edge = [4999, 5000, 5001] if quick else [4997, 4998, 4999, 5000, 5001, 5002, 5003]
+    for e in edge:
+        p1 = bz_aligned.get((e, False)) or bz_aligned.get((e, True)) or g.bz_sized(e)
+        if p1 is None:
+            ctx.count('bz-sized-miss')
+            continue
+        sweep_files.append(('bzip2', [p1, tail_small], False, 2 if quick else 40))
+        if e == 5000 or not quick:
+            sweep_files.append(('bzip2', [tail_small, p1, b'', tail_small], False, 2 if quick else 40))
+    for e in ([8191, 8192, 8193] if quick else [8190, 8191, 8192, 8193, 8194, 16384]):
+        p1 = gz_sized(e)
+        if p1 is None:
+            ctx.count('gz-sized-miss')
+            continue
+        sweep_files.append(('gzip', [p1, tail_small], False, 2 if quick else 40))
+        if e == 8192 or not quick:
+            sweep_files.append(('gzip', [tail_small, p1, b'', tail_small], False, 2 if quick else 40))
+
+    REG = {'hdr': 'header', 'blk': 'body', 'body': 'body', 'trl': 'trailer'}
+    sops, smeta = [], []        # rd ops (go through the model too)
+    rops2, rmeta2 = [], []      # reader ops
+    for kind, parts, is_opl, nbody in sweep_files:
+        members = [compress(kind, p_) for p_ in parts]
+        full = b''.join(members)
+        whole = b''.join(parts)
+        big = len(full) > 2000
+        regs = member_regions(kind, members)
+        chosen = [x for x in regs if x[2] != 'body']
+        for mi in range(len(members)):
+            body = [x for x in regs if x[1] == mi and x[2] == 'body']
+            if nbody is not None and len(body) > nbody:
+                rng.shuffle(body)
+                body = body[:nbody]
+            chosen += body
+        nobj, icrc = idcrc(parts) if is_opl else (None, None)
+        for pos, mi, reg, off in chosen:
+            vals = repl_values(full[pos], g.rnd, not quick)
+            if reg == 'body' and quick:
+                vals = vals[-2:]
+            if big and quick and reg != 'hdr':
+                vals = vals[:3]
+            for v in vals:
+                data = full[:pos] + bytes([v]) + full[pos + 1:]
+                path = g.write(data)
+                region = ('header-of-first-stream' if mi == 0 else 'header-of-later-stream') if reg == 'hdr' else REG[reg]
+                info = {'kind': kind, 'sizes': [len(p_) for p_ in parts], 'csizes': [len(m) for m in members], 'member': mi, 'off': off, 'pos': pos,
+                        'val': v, 'region': region, 'data': data, 'whole': whole, 'nstreams': len(parts), 'before': sum(len(p_) for p_ in parts[:mi])}
+                for mode in ('fd', 'buf'):
+                    lay = scan_layout(kind, data, mode)
+                    sops.append('rd %s %s 64 %s %s %s' % (kind, mode, path, fx, ','.join(lay) if lay else '-'))
+                    smeta.append((mode, info, lay))
+                if is_opl:
                     for mode in ('fd', 'buf'):
-                        cops.append('rd %s %s 64 %s' % (kind, mode, path))
-                        cmeta.append((kind, mode, ps, pos, mask, data, pos in starts))
-    rc, cout, se = ctx.run_lines([hbin[64]], ''.join(o + '\n' for o in cops))
-    if rc != 0 or len(cout) != len(cops):
-        ctx.violation('harness-crash', 'harness exited %d in corruption ops: %s' % (rc, se[-500:]), {'kind': 'harness-crash', 'stderr': se[-2000:]}, found_input=False)
+                        rops2.append('reader %s %s 64 %s' % (kind, mode, path))
+                        rmeta2.append((mode, info, nobj, icrc, sum(p_.count(b'\n') for p_ in parts[:mi])))
+        # bytes after the last stream that are not a complete valid stream
+        magic = b'\x1f\x8b\x08\x00' if kind == 'gzip' else b'BZh9'
+        garbage = [b'\x00', b'\x00' * 16, b'garbage!', magic[:1], magic[:2], magic[:3], members[-1][:10 if kind == 'gzip' else 4],
+                   members[-1][:-1], bytes([members[-1][0] ^ 0x20]) + members[-1][1:]]
+        if big and quick:
+            garbage = garbage[:5]
+        for gi, gb in enumerate(garbage):
+            data = full + gb
+            path = g.write(data)
+            info = {'kind': kind, 'sizes': [len(p_) for p_ in parts], 'csizes': [len(m) for m in members], 'member': len(members), 'off': 0 if gi != 3 else 2,
+                    'pos': len(full), 'val': gb[0], 'region': 'trailing-garbage', 'data': data, 'whole': whole, 'nstreams': len(parts), 'before': len(whole)}
+            for mode in ('fd', 'buf'):
+                lay = scan_layout(kind, data, mode)
+                sops.append('rd %s %s 64 %s %s %s' % (kind, mode, path, fx, ','.join(lay) if lay else '-'))
+                smeta.append((mode, info, lay))
+            if is_opl:
+                for mode in ('fd', 'buf'):
+                    rops2.append('reader %s %s 64 %s' % (kind, mode, path))
+                    rmeta2.append((mode, info, nobj, icrc, nobj))
+
+    def accepted(kind, path, info, o, l, got_desc, is_prefix):
+        """a damaged file was accepted with something else than the original payload"""
+        fd_like = path in ('fd', 'reader-fd')
+        if kind == 'gzip' and fd_like and info['off'] in (0, 1):
+            if info['member'] == 0:
+                key = 'corruption-accepted:gzip-fd:magic-of-first-member'
+            elif is_prefix:
+                key = 'corruption-accepted:gzip-fd:magic-of-later-member'
+            else:
+                key = 'corruption-accepted:gzip-%s:%s' % (path, info['region'])
+        else:
+            key = 'corruption-accepted:%s-%s:%s' % (kind, path, info['region'])
+        ctx.violation(key, '%s — e.g. %s file of %d stream(s) (payload sizes %s, compressed sizes %s), byte %d (offset %d of stream %d: %s) set to 0x%02x: `%s` -> %s (%s; '
+                      'the intact file gives %d bytes crc %08x)'
+                      % (WHAT.get(key, 'a damaged %s file is accepted as a %s file (%s path): no error although the bytes delivered are not the payload of the intact file'
+                                  % (kind, 'shorter' if is_prefix else 'different', path)),
+                         kind, info['nstreams'], info['sizes'], info['csizes'], info['pos'], info['off'], info['member'] + 1, info['region'], info['val'],
+                         ' '.join(o.split()[:5]), l, got_desc, len(info['whole']), zlib.crc32(info['whole'])),
+                      {'kind': 'counterexample', 'op': ' '.join(o.split()[:5]), 'impl': l, 'compression': kind, 'path': path, 'input_buffer_size': 64,
+                       'payload_sizes': info['sizes'], 'compressed_sizes': info['csizes'], 'damaged_byte': info['pos'], 'value': info['val'],
+                       'region': info['region'],
+                       'file_hex': info['data'].hex() if len(info['data']) <= 32768 else '<%d bytes>' % len(info['data']),
+                       'replay': 'write file_hex to <path>; echo "<op with that path>" | <harness c09 built with -DOSMIUM_VERIF_INPUT_BUFFER_SIZE=64>'})
+        return key
+
+    rc, sout, se = ctx.run_lines([hbin[64]], ''.join(o + '\n' for o in sops), env={'VERIF_OP_TIMEOUT': os.environ.get('VERIF_OP_TIMEOUT', '60')})
+    if rc != 0 or len(sout) != len(sops):
+        ctx.violation('harness-crash', 'harness exited %d in corruption ops after %d of %d lines: %s' % (rc, len(sout), len(sops), se[-500:]),
+                      {'kind': 'harness-crash', 'stderr': se[-2000:], 'next_op': sops[min(len(sout), len(sops) - 1)]}, found_input=False)
         return
-    for (kind, mode, ps, pos, mask, data, magic), o, l in zip(cmeta, cops, cout):
-        ctx.note_case('corrupt %s %s %s %d %d' % (kind, mode, [len(p) for p in ps], pos, mask))
+    for (mode, info, lay), o, l in zip(smeta, sops, sout):
+        kind = info['kind']
+        ctx.note_case('corrupt %s %s %s %d %d' % (kind, mode, info['sizes'], info['pos'], info['val']))
         ctx.count('op:corrupt')
         r = parse_out(l)
-        ref_status, ref = reference(kind, data)
+        offs = unrle(r.get('offs', '-'))
+        if offs and max(offs) > len(info['data']):
+            ctx.violation('offset-exceeds-file-size:%s-%s' % (kind, mode), 'offset %d > file size %d on a damaged file: `%s` -> %s' % (max(offs), len(info['data']), o, l),
+                          {'kind': 'counterexample', 'op': o, 'impl': l, 'file_hex': info['data'].hex()[:65536]})
+        if r['status'].startswith('hang'):
+            ctx.violation('read-loop-does-not-end:%s-%s' % (kind, mode), 'Decompressor::read() never returns the empty string on a damaged file: `%s` -> %s' % (o, l),
+                          {'kind': 'counterexample', 'op': o, 'impl': l, 'file_hex': info['data'].hex()[:65536]})
+            outcome = 'HANG'
+        elif r['status'] != 'ok':
+            outcome = 'error'
+        elif int(r['total']) == len(info['whole']) and r['crc'] == '%08x' % zlib.crc32(info['whole']):
+            outcome = 'harmless-same-bytes'
+        else:
+            tot = int(r['total'])
+            is_prefix = tot < len(info['whole']) and r['crc'] == '%08x' % zlib.crc32(info['whole'][:tot])
+            key = accepted(kind, mode, info, o, l, 'a prefix of the payload: %d bytes' % tot if is_prefix else 'other bytes', is_prefix)
+            outcome = 'KNOWN-accepted-shorter' if key.endswith('magic-of-later-member') else ('ACCEPTED-shorter' if is_prefix else 'ACCEPTED-different')
+        ctx.count('sweep:%s:%s:streams=%d:%s:%s' % (kind, mode, info['nstreams'], info['region'], outcome))
+        ctx.count('sweep-oracle:%s:%s:%s' % (kind, mode, 'intact' if lay and all(x.count(':') == 1 for x in lay) else (lay[-1].split(':')[2] if lay else 'empty')
+                                             + ('-later' if lay and len(lay) > 1 else '-first')))
+    # the model on the same damaged files (status, chunk lengths; offsets of damaged files are not part of the oracle)
+    if ctx.exe_build_ok:
+        okidx = [i for i, (_, _, lay) in enumerate(smeta) if lay is not None]
+        rc, mout, se = ctx.run_lines([ctx.model_exe('model_c09')], ''.join(sops[i] + '\n' for i in okidx))
+        if rc != 0 or len(mout) != len(okidx):
+            ctx.violation('model-driver-crash', 'model driver exited %d on the corruption ops (%d of %d lines): %s' % (rc, len(mout), len(okidx), se[-300:]),
+                          {'kind': 'broken-correspondence'}, found_input=False)
+        else:
+            def canon2(line):
+                r = parse_out(line)
+                return '%s lens=%s total=%s' % (r['status'], r.get('lens'), r.get('total'))
+            dis = ctx.diff_streams('c09-corrupt-model-vs-impl', [sops[i] for i in okidx], [canon2(sout[i]) for i in okidx], [canon2(x) for x in mout])
+            for x in mout:
+                ctx.count('model-status-corrupt:' + x.split()[0])
+            if dis:
+                i, op, x, y = dis[0]
+                ctx.violation('correspondence:corrupt ' + ' '.join(op.split()[1:3]),
+                              'model and implementation disagree on a damaged file (%d lines; first `%s`: impl=%s model=%s)' % (len(dis), op[:300], x[:200], y[:200]),
+                              {'kind': 'broken-correspondence', 'stream': 'c09-corrupt-model-vs-impl', 'first': dis[:5],
+                               'file_hex': smeta[okidx[i]][1]['data'].hex()[:65536]}, found_input=False)
+    # the whole Reader on the damaged OPL files
+    rc, rout2, se = ctx.run_lines([hbin[64]], ''.join(o + '\n' for o in rops2))
+    if rc != 0 or len(rout2) != len(rops2):
+        ctx.violation('harness-crash', 'harness exited %d in reader corruption ops after %d of %d lines: %s' % (rc, len(rout2), len(rops2), se[-500:]),
+                      {'kind': 'harness-crash', 'stderr': se[-2000:], 'next_op': rops2[min(len(rout2), len(rops2) - 1)]}, found_input=False)
+        return
+    for (mode, info, nobj, icrc, nbefore), o, l in zip(rmeta2, rops2, rout2):
+        kind = info['kind']
+        ctx.note_case('corrupt-reader %s %s %s %d %d' % (kind, mode, info['sizes'], info['pos'], info['val']))
+        ctx.count('op:corrupt-reader')
+        r = parse_out(l)
         if r['status'] != 'ok':
-            ctx.count('corrupt:%s:%s:%s' % (kind, mode, 'rejected' if ref_status != 'ok' else 'rejected-reference-accepts'))
-            continue
-        if ref_status == 'ok' and int(r['total']) == len(ref) and r['crc'] == '%08x' % zlib.crc32(ref):
-            ctx.count('corrupt:%s:%s:harmless-same-as-reference' % (kind, mode))
-            continue
-        # accepted although the reference rejects it / yields other bytes
-        whole = b''.join(ps)
-        nfirst = len(ps[0])
-        if kind == 'gzip' and mode == 'fd' and magic:
-            ctx.count('corrupt:gzip:fd:zlib-transparent')
-            continue
-        if len(ps) > 1 and int(r['total']) == nfirst and r['crc'] == '%08x' % zlib.crc32(whole[:nfirst]):
-            # the damaged byte is in a stream the current code never looks at
-            c = mk(kind, mode, 64, ps)
-            c.streams = ['%d:%d' % (len(m), len(p)) for m, p in zip(c.members, c.payloads)]
-            key = classify_drop(c, nfirst)
-            if key:
-                viol(key, c, o, l, ' (byte %d xor 0x%02x, in a stream that is never read)' % (pos, mask))
-                continue
-        if mode == 'buf' and ends_inside_stream(kind, data):
-            # the damage makes the stream longer than the buffer: same defect as a truncated buffer
-            c = mk(kind, mode, 64, ps, data=data)
-            c.streams = ['%d:?' % len(data)]
-            viol('%s-buffer-truncation-accepted' % kind, c, o, l, ' (byte %d xor 0x%02x: the library runs out of input inside the stream)' % (pos, mask))
-            continue
-        ctx.violation('corruption-accepted:%s-%s' % (kind, mode),
-                      'a corrupted %s file is accepted: payload sizes %s, byte %d xor 0x%02x; reference: %s; `%s` -> %s'
-                      % (kind, [len(p) for p in ps], pos, mask, ref_status if ref_status != 'ok' else 'other bytes', o, l),
-                      {'kind': 'counterexample', 'op': o, 'impl': l, 'file_hex': data.hex()})
+            outcome = 'error'
+        elif int(r['objects']) == nobj and r.get('ids') == icrc:
+            outcome = 'harmless-same-objects'
+        else:
+            is_prefix = int(r['objects']) == nbefore
+            key = accepted(kind, 'reader-' + mode, info, o, l, '%s of %d objects' % (r['objects'], nobj), is_prefix)
+            outcome = 'KNOWN-accepted-shorter' if key.endswith('magic-of-later-member') else ('ACCEPTED-shorter' if int(r['objects']) < nobj else 'ACCEPTED-different')
+        if r.get('offbad') == '1':
+            ctx.violation('offset-exceeds-file-size:%s-reader-%s' % (kind, mode), 'Reader::offset() > file size on a damaged file: `%s` -> %s' % (o, l),
+                          {'kind': 'counterexample', 'op': o, 'impl': l, 'file_hex': info['data'].hex()[:65536]})
+        ctx.count('sweep:%s:reader-%s:streams=%d:%s:%s' % (kind, mode, info['nstreams'], info['region'], outcome))
 
     # ------------------------------------------------------------------ H. the library's own compressors: reference-readable and read back
     wsizes = [0, 1, 100, 10240, 70000] if quick else [0, 1, 63, 64, 65, 100, 10239, 10240, 10241, 70000, MIB - 1, MIB, MIB + 1, 3 * MIB + 5]
@@ -777,3 +1112,43 @@ def _run(ctx, hbin, scratch):
             viol(key or 'reader-wrong-object-count:%s-%s' % (c.kind, c.mode), c, o, l, ' (osmium::io::Reader: %s of %d objects)' % (r['objects'], nobj))
         if r.get('offbad') == '1':
             viol('offset-exceeds-file-size:%s-%s' % (c.kind, c.mode), c, o, l, ' (Reader::offset() > file_size())')
+
+    # truncation of a 4-member OPL file at EVERY length through the whole Reader: a cut at a member boundary is a valid
+    # shorter file (exactly the objects of the complete members), every other cut must raise
+    tops, tmeta = [], []
+    for kind in ('gzip', 'bzip2'):
+        parts = [opl(1, 2), b'', opl(5, 1), opl(9, 2)]
+        members = [compress(kind, p_) for p_ in parts]
+        full = b''.join(members)
+        bounds, acc, nacc = {}, 0, 0
+        for m_, p_ in zip(members, parts):
+            acc += len(m_)
+            nacc += p_.count(b'\n')
+            bounds[acc] = nacc
+        for t in range(1, len(full)):
+            path = g.write(full[:t])
+            for mode in ('fd', 'buf'):
+                tops.append('reader %s %s 64 %s' % (kind, mode, path))
+                tmeta.append((kind, mode, t, bounds, [len(m_) for m_ in members], full[:t]))
+    rc, tout, se = ctx.run_lines([hbin[64]], ''.join(o + '\n' for o in tops))
+    if rc != 0 or len(tout) != len(tops):
+        ctx.violation('harness-crash', 'harness exited %d in reader truncation ops: %s' % (rc, se[-500:]), {'kind': 'harness-crash', 'stderr': se[-2000:]}, found_input=False)
+        return
+    for (kind, mode, t, bounds, csizes, data), o, l in zip(tmeta, tops, tout):
+        ctx.note_case('trunc-reader %s %s %d' % (kind, mode, t))
+        ctx.count('op:trunc-reader')
+        r = parse_out(l)
+        if t in bounds:
+            if r['status'] != 'ok' or int(r['objects']) != bounds[t]:
+                ctx.violation('reader-rejects-valid-file:%s-%s' % (kind, mode), 'a file of complete members (compressed sizes %s, first %d bytes) is not read as its %d objects: `%s` -> %s'
+                              % (csizes, t, bounds[t], o, l), {'kind': 'counterexample', 'op': o, 'impl': l, 'file_hex': data.hex()})
+            ctx.count('trunc-reader:%s:%s:at-member-boundary' % (kind, mode))
+        elif r['status'] == 'ok':
+            if kind == 'gzip' and mode == 'fd' and (t - 1) in bounds:
+                ctx.count('excluded:zlib-lone-byte-after-members')
+                continue
+            ctx.violation('truncation-accepted:%s-reader-%s' % (kind, mode), 'a %s file (members of %s compressed bytes) cut after %d bytes — inside a member — is accepted by '
+                          'osmium::io::Reader (%s objects): `%s` -> %s' % (kind, csizes, t, r.get('objects'), o, l),
+                          {'kind': 'counterexample', 'op': o, 'impl': l, 'file_hex': data.hex()})
+        else:
+            ctx.count('trunc-reader:%s:%s:error' % (kind, mode))
